@@ -49,6 +49,9 @@ def dispatch (prop : String) (line : String) : Verdict :=
     | some "qburst" => QueueE.runBurst prop f obsS
     | some "qlatency" => QueueE.runLatency prop f obsS
     | some "qdroprace" => QueueE.runDropRace prop f obsS
+    | some "qemitdrop" => QueueE.runEmitDrop prop f obsS
+    | some "sockbig" => SockE.runBig prop f obsS
+    | some "hdl" => FmtE.runHdl prop f obsS
     | some "sock" => SockE.runSock prop f obsS
     | some "sockmt" => SockE.runMt prop f obsS
     | some "socklock" => SockE.runLock prop f obsS
